@@ -660,13 +660,14 @@ theorem chainDef (ps : Nat) (data : Bytes) : (d : Def) → (t : Letter) → (be 
     · intro pos
       simp only [unpackDef, h1 pos []]
       cases hr : unpackRaw ps t be 0 data pos with
-      | none => simp [withFlag]
+      | none => simp [withFlag, finishTypedef]
       | some r =>
         obtain ⟨v, sz, m⟩ := r
         have hsz := unpackRaw_size hr
         simp only [Nat.lt_irrefl, if_false, Nat.mul_one] at hsz
         subst hsz
-        simp only [withFlag, padTail_unit hA, Nat.sub_self, zeros, List.replicate_zero, List.append_nil]
+        simp only [withFlag, finishTypedef, padTail_unit hA, Nat.sub_self, zeros, List.replicate_zero,
+          List.append_nil]
     · intro hp U
       have hpk := h2 hp U
       simp only [packOne, packFields, hpk]
